@@ -741,3 +741,11 @@ mutant("C18-M29", "C18", "R18f", "missing data for an initialisation compartment
 twin("C18-T5", "C18", "validation condition rewritten equivalently", FW, "ProjectFramework._validate_names", "if name in FS.RESERVED_KEYWORDS:", "if not (name not in FS.RESERVED_KEYWORDS):")
 mutant("C18-M30", "C18", "R18f", "databook unit mismatch accepted for parameters", DA, "ProjectData._validate", "if ts.units.strip().lower() != framework_units.strip().lower():", "if ts.units.strip().lower() != framework_units.strip().lower() and obj_type != \"pars\":")
 mutant("C18-M31", "C18", "R18f", "missing population data accepted", DA, "ProjectData._validate", "assert ts.has_data, \"%s. Data values missing for %s (%s)\" % (location, tdve.name, name)", "pass")
+
+# ---- round 6 (fourth seeded change per property), first batch
+reintro("C03-M22", "C03", "R03f", "295cc0e", "sim_start setter does not re-snap the end year")
+mutant("C03-M23", "C03", "R03f", "end year only re-snapped when it changed", PJ, "ProjectSettings.update_time_vector", "        if end is not None:\n            self.sim_end = end", "        if end is not None and end != self.sim_end:\n            self.sim_end = end")
+mutant("C05-M29", "C05", "R05k", "junctions with several upstream compartments skipped", FW, "ProjectFramework._assign_junction_duration_groups", "                # The logic is\n", "                if len(upstream_comps) > 1 or len(downstream_groups) > 1:\n                    continue\n                # The logic is\n")
+mutant("C05-M30", "C05", "R05k", "attachment test inverted for timed parameters", FW, "ProjectFramework._assign_junction_duration_groups", 'if par == ">" or self.pars.at[par, "timed"] != "y":', 'if par == ">" or self.pars.at[par, "timed"] == "y":')
+mutant("C07-M31", "C07", "R07i", "flattened member list cached at wiring time", M, "Characteristic.get_included_comps", "        includes = []\n        for inc in self.includes:", "        if getattr(self, \"_flat\", None) is not None:\n            return list(self._flat)\n        includes = []\n        for inc in self.includes:")
+mutant("C02-M23", "C02", "R04c", "residual outflow takes the remainder whatever the proportions sum to", M, "ResidualJunctionCompartment.balance", "if link.parameter is None and total_outflow < 1:", "if link.parameter is None:")
